@@ -57,6 +57,43 @@ func verif_harness_C12_add() {
 	}
 }
 
+// C12 (A2) — a sequence of additions from a fresh histogram: m results with
+// arbitrary latencies (any order: rising, falling, repeated) into n arbitrary
+// increasing bounds. After every addition each bucket holds exactly the number
+// of latencies so far that lie in its range — whatever state the
+// implementation carries from one addition to the next.
+//
+//verif:harness param.n=2..4 param.m=3..3 thorough.param.n=2..5 thorough.param.m=3..4 unwind=32
+func verif_harness_C12_add_sequence() {
+	n, m := verif_param("n"), verif_param("m")
+	bs := make(Buckets, n)
+	for i := range bs {
+		bs[i] = time.Duration(verif_nondet_i64("bound"))
+		if i > 0 {
+			verif_assume(bs[i-1] < bs[i])
+		}
+	}
+	h := &Histogram{Buckets: bs}
+	want := make([]uint64, n)
+	for k := 0; k < m; k++ {
+		lat := time.Duration(verif_nondet_i64("latency"))
+		verif_assume(lat >= bs[0])
+		h.Add(&Result{Latency: lat})
+		verif_assert(h.Total == uint64(k+1) && len(h.Counts) == n, "C12.seq.total-and-counts-len")
+		if len(h.Counts) != n {
+			return
+		}
+		for i := range bs {
+			in := lat >= bs[i]
+			if i < n-1 {
+				in = verif_and(in, lat < bs[i+1])
+			}
+			want[i] = verif_ite_u64(in, want[i]+1, want[i])
+			verif_assert(h.Counts[i] == want[i], "C12.seq.each-bucket-counts-exactly-its-latencies")
+		}
+	}
+}
+
 // C12 (U) — Buckets.UnmarshalText with time.ParseDuration replaced by an
 // arbitrary-result model: the parsed bounds are kept in order, a zero bound is
 // prepended iff the first parsed bound is positive, an error is returned iff
